@@ -144,6 +144,7 @@ func (m *MemberList) ForwardDeleteKey(ctx context.Context, key string) {
 	connId, _ := ctx.Value(internal.ContextConnID("ConnectionID")).(string)
 	database, _ := ctx.Value("Database").(int)
 	protocol, _ := ctx.Value("Protocol").(int)
+	expiredAt, _ := ctx.Value("ExpiredAt").(int64)
 	m.broadcastQueue.QueueBroadcast(&BroadcastMessage{
 		Action:      "DeleteKey",
 		Content:     []byte(key),
@@ -151,6 +152,7 @@ func (m *MemberList) ForwardDeleteKey(ctx context.Context, key string) {
 		ConnId:      connId,
 		Database:    database,
 		Protocol:    protocol,
+		ExpiredAt:   expiredAt,
 		NodeMeta: NodeMeta{
 			ServerID: raft.ServerID(m.options.Config.ServerID),
 			RaftAddr: raft.ServerAddress(fmt.Sprintf("%s:%d",
